@@ -527,8 +527,8 @@ func check(x *run) (vs []viol, st map[string]int, describe []string) {
 				}
 			}
 			B += p.Offset
-			if upper >= taint || a >= taint {
-				continue
+			if b > taint {
+				continue // the window reaches into the refused sub-class
 			}
 			if upper < 0 {
 				add("ack-packet-without-source", fmt.Sprintf("backend received ChatAcknowledgement(%d) between client packets %d and %d, none of which can produce one", p.Offset, a, b))
@@ -559,19 +559,27 @@ func check(x *run) (vs []viol, st map[string]int, describe []string) {
 			// forwarded packet with a last-seen update: exact catch-up
 			st["catch_up_points_checked"]++
 			if B != C[p.Item] {
-				unsignedBetween := false
+				unsignedBetween, consumedBetween := false, false
 				for j := lastSync + 1; j < p.Item; j++ {
 					if sp.Items[j].Kind == "ucmd" {
 						unsignedBetween = true
 					}
+					if sp.Items[j].Kind == "scmd" && !expectForwarded(sp.Items[j]) {
+						consumedBetween = true
+					}
 				}
+				where := fmt.Sprintf("right after forwarded client packet %d (%q) the backend has received %d acks, the client expressed %d", p.Item, it.Text, B, C[p.Item])
 				switch {
 				case B > C[p.Item]:
-					add("backend-acks-exceed-client-acks", fmt.Sprintf("right after forwarded client packet %d (%q) the backend has received %d acks, the client expressed %d", p.Item, it.Text, B, C[p.Item]))
+					add("backend-acks-exceed-client-acks", where)
+				case unsignedBetween && consumedBetween:
+					add("acks-lost-across-consumed-or-unsigned-command", where+"; consumed and unsigned commands lie between this and the previous catch-up point")
 				case unsignedBetween:
-					add("held-acks-lost-across-unsigned-command", fmt.Sprintf("right after forwarded client packet %d (%q) the backend has received %d acks, the client expressed %d; an unsigned command lies between this and the previous catch-up point", p.Item, it.Text, B, C[p.Item]))
+					add("held-acks-lost-across-unsigned-command", where+"; an unsigned command (and no consumed command) lies between this and the previous catch-up point")
+				case consumedBetween:
+					add("acks-lost-across-consumed-command", where+"; a consumed/denied command lies between this and the previous catch-up point")
 				default:
-					add("acks-not-caught-up-after-last-seen-update", fmt.Sprintf("right after forwarded client packet %d (%q) the backend has received %d acks, the client expressed %d", p.Item, it.Text, B, C[p.Item]))
+					add("acks-not-caught-up-after-last-seen-update", where)
 				}
 				B = C[p.Item] // resynchronise so that one loss is reported once
 			}
